@@ -341,6 +341,7 @@ func setterLayers(j judge, tier string) []Layer {
 		for _, f := range []int8{fZero, fInf} {
 			xs = append(xs, mkSpecial(f, false, 7, 1), mkSpecial(f, true, 0, 4))
 		}
+		xs = append(xs, mkSpecial(fZero, true, 7, 2).withStale(3), mkSpecial(fInf, false, 7, 3).withStale(1))
 		mexps := []int64{0, 1, -1, 3, -3, MaxExp, MaxExp - 1, MinExp, MinExp + 1}
 		offs := []int64{0, 1, -1, 2, -2, 3, -3, 1<<31 - 2, 1<<31 - 1, 1 << 31, 1<<31 + 1, -(1 << 31) + 1, -(1 << 31), -(1 << 31) - 1, -(1 << 31) - 2, 1 << 32, -(1 << 32), 1<<32 - 1, -(1 << 32) + 1, math.MaxInt64, math.MaxInt64 - 1, math.MinInt64, math.MinInt64 + 1}
 		layers = append(layers, Layer{
@@ -653,6 +654,7 @@ func getterLayers(tier string) []Layer {
 		for _, f := range []int8{fZero, fInf} {
 			xs = append(xs, mkSpecial(f, false, 0, 0), mkSpecial(f, true, 0, 0))
 		}
+		xs = append(xs, staleSpecials(34, 0)...) // ±0/±Inf in variables that held finite values before
 		for _, e := range []int64{MaxExp, MinExp, 4000, -4000} {
 			o := mkInt64(123, 0, 34, 0)
 			o.Exp = e
@@ -663,7 +665,7 @@ func getterLayers(tier string) []Layer {
 		layers = append(layers, Layer{
 			Name:   "G2-values",
 			Units:  (len(xs) + chunk - 1) / chunk,
-			Bounds: fmt.Sprintf("x in ±D(%d)×10^[-3..22] ∪ ±W(3,S7)×14 exponents (-20..60) ∪ {±0, ±Inf, huge/tiny exponents} (%d values): all getters", k, len(xs)),
+			Bounds: fmt.Sprintf("x in ±D(%d)×10^[-3..22] ∪ ±W(3,S7)×14 exponents (-20..60) ∪ {±0, ±Inf (also with a history: the variable held a finite value before), huge/tiny exponents} (%d values): all getters", k, len(xs)),
 			Run: func(c *Ctx, u int) {
 				for i := u * chunk; i < (u+1)*chunk && i < len(xs); i++ {
 					if xs[i].Form == fFinite && (xs[i].Exp > 100000 || xs[i].Exp < -100000) {
@@ -826,7 +828,9 @@ func rawLayers(tier string) []Layer {
 				}
 				if u < 4 {
 					if !c.Skip() {
-						mantExpCase(c, mkSpecial([]int8{fZero, fInf}[u%2], u >= 2, 9, ToPositiveInf))
+						for k := range staleKinds {
+							mantExpCase(c, mkSpecial([]int8{fZero, fInf}[u%2], u >= 2, 9, ToPositiveInf).withStale(int8(k)))
+						}
 					}
 				}
 			},
